@@ -1143,3 +1143,85 @@ def dispatch_cases(rng, n=400):
                 body = '{"a": 1}'
         out.append(_base('dispatch', method, path, pick(rng, PROTOS), hs, qs=qs, body=body))
     return out
+
+
+# ---- bodies read through the server's own reader objects (cheroot): chunked framing, trailers, size limit ------
+def chunk_encode(rng, data):
+    """`data` (bytes) in chunked transfer coding, chunk boundaries chosen at random."""
+    out, i = [], 0
+    while i < len(data):
+        n = rng.choice([1, 2, 3, 7, 16, 100, 5000])
+        piece = data[i:i + n]
+        out.append(('%x' % len(piece)).encode() + b'\r\n' + piece + b'\r\n')
+        i += n
+    return out
+
+
+TRAILERS = [b'', b'', b'', b'X-T: v\r\n', b'nocolon\r\n', b' continued\r\n', b'X-T: v\r\n continued\r\n', b'X-T: v\n',
+            b'Content-Length: 5\r\n', b'X-T: \xff\xfe\r\n', b'\xe9: v\r\n', b':\r\n', b'X-T: ' + b'v' * 70000 + b'\r\n',
+            b'Accept: a\r\nAccept: b\r\n', b'\x00: \x00\r\n', b'X-T: v']
+
+
+def chunked_cases(rng, n=300):
+    """Consumers of request bodies fed through cheroot's ChunkedRFile / KnownLengthRFile: well-formed chunking of
+    (possibly malformed) bodies, then the framing itself damaged: sizes, terminators, truncation, trailers, limit."""
+    out = []
+    for _ in range(n):
+        path = pick(rng, ['/form', '/form', '/upload', '/json', '/plain', '/limit', '/decode', '/basic', '/cache/ch', '/rest'])
+        method = pick(rng, ['POST', 'POST', 'POST', 'PUT', 'PATCH', 'GET', 'DELETE'])
+        kind = {'/upload': 'multipart', '/json': 'json'}.get(path) or pick(rng, ['urlencoded', 'urlencoded', 'multipart', 'json'])
+        if kind == 'urlencoded':
+            body, ct = gen_urlencoded(rng), gen_content_type(rng, 'application/x-www-form-urlencoded')
+        elif kind == 'multipart':
+            ct, bnd = gen_ct_multipart(rng)
+            body = gen_multipart(rng, bnd)
+        else:
+            body, ct = gen_json(rng), 'application/json'
+        data = body.encode('latin-1')
+        hs = [['Content-Type', sanitize(ct)]]
+        c = _base('chunked', method, path, pick(rng, PROTOS + ['HTTP/1.1']), [])
+        c['headers'] = [h for h in c['headers'] if h[0] not in ('Content-Type', 'Content-Length')] + hs
+        if rng.random() < 0.25:
+            # declared length, read through KnownLengthRFile (a short body ends early, a long one is cut)
+            c['rfile'] = 'known'
+            c['headers'].append(['Content-Length', str(pick(rng, [len(data), len(data), len(data) + 5, max(0, len(data) - 1), 0]))])
+            c['body'] = body
+            out.append(c)
+            continue
+        c['rfile'] = 'chunked'
+        c['headers'].append(['Transfer-Encoding', pick(rng, ['chunked'] * 6 + ['Chunked', 'gzip, chunked'])])
+        if rng.random() < 0.1:
+            c['headers'].append(['Content-Length', pick(rng, [str(len(data)), '0', 'x'])])
+        if rng.random() < 0.15:
+            c['headers'].append(['Trailer', 'X-T'])
+        chunks = chunk_encode(rng, data)
+        last = b'0\r\n'
+        trailer = pick(rng, TRAILERS)
+        end = b'\r\n'
+        r = rng.random()
+        if r < 0.45:
+            pass                                            # well-formed framing
+        elif r < 0.55 and chunks:
+            j = rng.randrange(len(chunks))                  # a damaged chunk-size line
+            size, _, rest = chunks[j].partition(b'\r\n')
+            size = pick(rng, [b'zz', b'', b'-1', b'0x3', b' ' + size, size + b' ', size + b';ext=1', size + b';', size.upper(),
+                              b'f' * 20, size + b'\xe9', b'+' + size, size + b'\n', b'1_0', b'\xb2'])
+            chunks[j] = size + b'\r\n' + rest
+        elif r < 0.62 and chunks:
+            j = rng.randrange(len(chunks))                  # data not followed by CRLF
+            chunks[j] = chunks[j][:-2] + pick(rng, [b'', b'\n', b'XX', b'\r'])
+        elif r < 0.70:
+            last = pick(rng, [b'', b'0', b'0\n', b'00\r\n', b'0;x\r\n', b'-0\r\n'])   # the last-chunk line
+        elif r < 0.76:
+            end = pick(rng, [b'', b'\n', b'\r', b'\r\n\r\n', b'x\r\n'])
+        elif r < 0.88:
+            wire = b''.join(chunks) + last + trailer + end   # truncated anywhere
+            wire = wire[:rng.randrange(len(wire) + 1)]
+            c['body'] = wire.decode('latin-1')
+            out.append(c)
+            continue
+        else:
+            c['maxlen'] = pick(rng, [1, 10, 100, len(data), len(data) + 1, max(1, len(data) - 1)])   # server's size limit
+        c['body'] = (b''.join(chunks) + last + trailer + end).decode('latin-1')
+        out.append(c)
+    return out
